@@ -127,6 +127,13 @@ func (ex *Exec) verifyTop() {
 	o.Descr = "the preconditions (and input well-formedness) are satisfiable"
 
 	ex.runBody(fr, st, True)
+	for _, ca := range c.CallAsserts {
+		if !ex.assertHit[ca] {
+			// an assertion attached to a call that does not exist (any more) would hold vacuously
+			o := vc.oblige("assert", "assert-unmatched:"+ca.Clause.Label, True, False, ca.Clause.Where)
+			o.Descr = "no call to " + ca.Callee + " was found in the function: the assertion is attached to nothing"
+		}
+	}
 
 	// panics
 	for _, p := range fr.panics {
